@@ -613,9 +613,9 @@ def check_standard_type(exts):
         m.add_attachment(b"# title\n\ntext\n", maintype=mt.split("/")[0], subtype=mt.split("/")[1], filename=name)
         r = run_eml(m.as_bytes())[0]
         flags = [(a.filename, a.mime_type, a.is_supported_mime_type) for a in r.attachments]
-        if flags != [(name, mt, True)] or not is_supported_mime_type(mt):
+        if flags != [(name, mt.lower(), True)] or not is_supported_mime_type(mt):
             return {"target": "mime_types.py::MIME_TYPE_MAPPING / is_supported_mime_type", "inputs": {"attachment": name, "declared type": mt},
-                    "expected": [(name, mt, True)], "observed": {"attachments (name, type, is_supported_mime_type)": flags,
+                    "expected": [(name, mt.lower(), True)], "observed": {"attachments (name, type, is_supported_mime_type)": flags,
                                                                  "is_supported_mime_type": is_supported_mime_type(mt), "file on its own": "routed by the router"}}
     return None
 
@@ -628,7 +628,7 @@ def check_mime_keys():
     return None
 
 
-RECORDED_MISSING_TYPES = ["7z", "dotm", "dotx", "otp", "ots", "ott", "potm", "potx", "ppsm", "ppsx", "xltm", "xltx"]
+RECORDED_MISSING_TYPES = ["7z", "docm", "dotm", "dotx", "otp", "ots", "ott", "potm", "potx", "ppsm", "ppsx", "pptm", "xlsm", "xltm", "xltx"]
 
 
 def check_dispatch():
